@@ -360,6 +360,10 @@ def _new_block(body, stmts, term):
     return n
 
 
+def _unreachable(body, span):
+    return _new_block(body, [], {"k": "unreachable", "span": span})
+
+
 def _inline_closure(body, cb, env_op, arg_ops, dest_local, cont, span):
     """Append the closure's blocks; returns the entry block.  Result goes to dest_local."""
     nl = len(body["locals"])
@@ -438,7 +442,7 @@ def _loop_skeleton(body, iter_op, span):
 
     def wire(none_bb, some_bb):
         body["blocks"][sw]["term"]["targets"] = [["0", none_bb], ["1", some_bb]]
-        body["blocks"][sw]["term"]["otherwise"] = none_bb
+        body["blocks"][sw]["term"]["otherwise"] = _unreachable(body, span)
     return {"pre": pre, "header": hd, "elem": elem, "wire": wire}
 
 
@@ -562,7 +566,7 @@ def desugar_combinators(raw):
                                         {"k": "goto", "target": cont, "span": span})
                     d2 = _new_local(body, "isize")
                     test = _new_block(body, [_assign(_pl(d2), {"k": "discriminant", "place": _pl(res), "adt": "std::result::Result"}, span)],
-                                      {"k": "switch", "discr": _mv(d2), "discr_ty": "isize", "targets": [["0", push_bb], ["1", err_bb]], "otherwise": err_bb, "span": span})
+                                      {"k": "switch", "discr": _mv(d2), "discr_ty": "isize", "targets": [["0", push_bb], ["1", err_bb]], "otherwise": _unreachable(body, span), "span": span})
                     entry = _inline_closure(body, cb, mt["args"][1], [sk["elem"]], res, test, span)
                 else:
                     exit_bb = _new_block(body, [] if acc == dest["local"] and not dest["proj"] else [_assign(copy.deepcopy(dest), {"k": "use", "op": _mv(acc)}, span)], {"k": "goto", "target": cont, "span": span})
@@ -599,7 +603,7 @@ def desugar_combinators(raw):
                 entry = _inline_closure(body, cb, args[1], cl_args, res, wrap_bb, span)
                 sw = _new_block(body, [_assign(_pl(src), {"k": "use", "op": copy.deepcopy(args[0])}, span),
                                        _assign(_pl(d2), {"k": "discriminant", "place": _pl(src), "adt": adt}, span)],
-                                {"k": "switch", "discr": _mv(d2), "discr_ty": "isize", "targets": [[str(goodi), good_bb], [str(badi), entry]], "otherwise": entry, "span": span})
+                                {"k": "switch", "discr": _mv(d2), "discr_ty": "isize", "targets": [[str(goodi), good_bb], [str(badi), entry]], "otherwise": _unreachable(body, span), "span": span})
                 blk["term"] = {"k": "goto", "target": sw, "span": span}
                 used_closures.add(cid)
                 hosts.add(body["id"])
@@ -638,7 +642,7 @@ def desugar_combinators(raw):
                     oth = entry
                 sw = _new_block(body, [_assign(_pl(src), {"k": "use", "op": copy.deepcopy(args[0])}, span),
                                        _assign(_pl(d2), {"k": "discriminant", "place": _pl(src), "adt": adt}, span)],
-                                {"k": "switch", "discr": _mv(d2), "discr_ty": "isize", "targets": tg, "otherwise": oth, "span": span})
+                                {"k": "switch", "discr": _mv(d2), "discr_ty": "isize", "targets": tg, "otherwise": _unreachable(body, span), "span": span})
                 blk["term"] = {"k": "goto", "target": sw, "span": span}
                 used_closures.add(cid)
                 hosts.add(body["id"])
